@@ -679,12 +679,27 @@ func (w *worker) runC20(p *harness.Pkg, t *tape.Tape, logOn bool) *verdict {
 		}
 		plan.Reqs = append(plan.Reqs, rp)
 	}
+	// a history inside the execution: one request (biased towards a response the server cannot encode) is served to
+	// completion before the callers of the others start; what it left behind meets the concurrent batch
+	if n >= 3 && t.Flip(1, 5, "prelude") {
+		pi := t.Choose(len(plan.Reqs), "prelude-request")
+		if pre := &plan.Reqs[pi]; pre.Parent == "" {
+			pre.RespBadFloats = pre.Kind == 0 && t.Flip(1, 2, "prelude-unencodable")
+			for i := range plan.Reqs {
+				if rq := &plan.Reqs[i]; i != pi && rq.Parent == "" {
+					rq.After = pre.Tag
+				}
+			}
+			plan.Prelude = pre.Tag
+		}
+	}
 	// reference: every request alone, zero tape, fresh API and Client
 	solo := map[string]map[string]string{}
 	for i := range plan.Reqs {
 		sp := *plan
 		me := plan.Reqs[i]
 		me.Parent = "" // a nested request is referenced standing alone
+		me.After, sp.Prelude = "", ""
 		sp.Reqs = []harness.ReqPlan{me}
 		for _, c := range plan.Reqs {
 			if c.Parent == me.Tag {
@@ -707,6 +722,15 @@ func (w *worker) runC20(p *harness.Pkg, t *tape.Tape, logOn bool) *verdict {
 	countFaults(v, plan)
 	v.counters[fmt.Sprintf("runs_with_%d_concurrent_requests", n)]++
 	v.counters["solo_reference_runs"] += n
+	if plan.Prelude != "" {
+		v.counters["runs_with_a_request_served_to_completion_before_the_concurrent_batch"]++
+		if o := res.Obs[plan.Prelude]; o != nil && o.ClientErr != "" {
+			v.probes["prelude_request_ended_with_a_client_error"]++
+		}
+		if rq := planReq(plan, plan.Prelude); rq != nil && rq.RespBadFloats {
+			v.probes["prelude_response_planned_with_unencodable_floats"]++
+		}
+	}
 	const exp = "per request: observation under the concurrent schedule == observation of the same request executed alone; no write to shared state by a request task; every caller returns"
 	if res.Err != nil {
 		soloStalled := false
@@ -782,6 +806,15 @@ func (w *worker) runC20(p *harness.Pkg, t *tape.Tape, logOn bool) *verdict {
 	}
 	v.sample = map[string]any{"package": p.Name, "concurrent_requests": n, "scheduler_steps": res.Steps, "context_switches": res.Switches, "trace_head": headOf(v.trace, 12)}
 	return v
+}
+
+func planReq(plan *harness.RunPlan, tag string) *harness.ReqPlan {
+	for i := range plan.Reqs {
+		if plan.Reqs[i].Tag == tag {
+			return &plan.Reqs[i]
+		}
+	}
+	return nil
 }
 
 func headOf(s []string, n int) []string {
